@@ -538,4 +538,66 @@ Proof.
   pose proof (H5 _ (in_combine_seq Rs 0 i _ HR)) as E. cbn [fst snd Nat.add] in E. rewrite Ho in E. exact E.
 Qed.
 
+(* ---------- the direct evaluation exists: non-vacuity of [consistent] ---------- *)
+Definition wfun (acc : list (list F -> F)) (i : nat) (w : wire) : list F -> F :=
+  match w_gate w with
+  | None => asg i
+  | Some g => fun b => gate_eval g (map (fun j => nth j acc (fun _ => 0) b) (w_ins w))
+  end.
+Fixpoint wvals_aux (ws : list wire) (i : nat) (acc : list (list F -> F)) : list (list F -> F) :=
+  match ws with
+  | [] => acc
+  | w :: r => wvals_aux r (S i) (acc ++ [wfun acc i w])
+  end.
+(* wire by wire, instance by instance: what the circuit computes from the assigned inputs *)
+Definition direct_eval (ws : list wire) (i : nat) : list F -> F := nth i (wvals_aux ws 0 []) (fun _ => 0).
+
+Lemma wvals_aux_prefix : forall ws i acc j, j < length acc ->
+  nth j (wvals_aux ws i acc) (fun _ => 0) = nth j acc (fun _ => 0).
+Proof.
+  induction ws as [|w ws IH]; intros i acc j Hj; cbn [wvals_aux]; [reflexivity|].
+  rewrite IH by (rewrite app_length; cbn; lia). apply app_nth1. exact Hj.
+Qed.
+
+Lemma wvals_aux_at : forall ws i acc k w, length acc = i -> nth_error ws k = Some w ->
+  (forall j, In j (w_ins w) -> j < Nat.add i k) ->
+  forall b, nth (Nat.add i k) (wvals_aux ws i acc) (fun _ => 0) b =
+            match w_gate w with
+            | None => asg (Nat.add i k) b
+            | Some g => gate_eval g (map (fun j => nth j (wvals_aux ws i acc) (fun _ => 0) b) (w_ins w))
+            end.
+Proof.
+  induction ws as [|w0 ws IH]; intros i acc k w L Hk Hins b; [destruct k; discriminate|].
+  destruct k as [|k].
+  - cbn in Hk. injection Hk as ->. cbn [wvals_aux]. rewrite Nat.add_0_r.
+    rewrite wvals_aux_prefix by (rewrite app_length; cbn; lia).
+    rewrite app_nth2 by lia. rewrite L, Nat.sub_diag. cbn [nth]. unfold wfun.
+    destruct (w_gate w) as [g|]; [|reflexivity]. f_equal. apply map_ext_in. intros j Hj.
+    specialize (Hins j Hj).
+    rewrite wvals_aux_prefix by (rewrite app_length; cbn; lia).
+    rewrite app_nth1 by lia. reflexivity.
+  - cbn in Hk. cbn [wvals_aux]. replace (Nat.add i (S k)) with (Nat.add (S i) k) by lia.
+    apply IH; [rewrite app_length; cbn; lia | exact Hk |].
+    intros j Hj. specialize (Hins j Hj). lia.
+Qed.
+
+Theorem direct_eval_consistent ws : sorted_b ws = true -> consistent ws (direct_eval ws).
+Proof.
+  intros Hs i w Hw b _. unfold direct_eval.
+  exact (wvals_aux_at ws 0%nat [] i w eq_refl Hw (ins_lt ws Hs i w Hw) b).
+Qed.
+
+(* soundness stated for the direct evaluation itself *)
+Corollary gkr_exec_sound_direct ws rho proofs chals :
+  gkr_exec ws rho proofs chals = true -> char_ok ws ->
+  no_luck ws (build_runs ws rho proofs chals) (direct_eval ws) ->
+  forall i w, nth_error ws i = Some w -> is_output ws i = true ->
+  mle n (asg i) rho = mle n (direct_eval ws i) rho.
+Proof.
+  intros H Hch Hl. apply (gkr_exec_sound ws rho proofs chals (direct_eval ws) H); [|exact Hch|exact Hl].
+  apply direct_eval_consistent. unfold gkr_exec in H.
+  apply andb_prop in H. destruct H as [H _]. apply andb_prop in H. destruct H as [H _].
+  apply andb_prop in H. destruct H as [H _]. apply andb_prop in H. destruct H as [_ H]. exact H.
+Qed.
+
 End Gkr.
